@@ -124,3 +124,44 @@ Proof.
     replace (0 * 0 + 0 * 0 + 1 * 1) with 1 by ring. rewrite sqrt_1. f_equal; [f_equal |]; field. }
   rewrite E. replace (- 0.5) with (- / 2) by lra. field. exact Hn.
 Qed.
+
+(* ---- pump along lab z in a uniaxial medium: the generated index, as a function of the crystal angle, is the closed form *)
+Lemma index_along_gen_pump no ne phi p t :
+  0 < no -> 0 < ne ->
+  index_along_gen t phi no no ne (0, 0, 1) p = fresnel_index p no no ne (sin t * cos phi) (sin t * sin phi) (cos t).
+Proof.
+  intros Hno Hne.
+  assert (Hu : unit_vec (0, 0, 1)) by (unfold unit_vec, vnorm2, vdot, vx, vy, vz; cbn [fst snd]; ring).
+  rewrite index_along_is_model by assumption. unfold index_model. cbv zeta. rewrite crystal_frame_pump. reflexivity.
+Qed.
+
+Lemma polar_unit_components phi t :
+  sin t * cos phi * (sin t * cos phi) + sin t * sin phi * (sin t * sin phi) + cos t * cos t = 1.
+Proof.
+  pose proof (polar_dir_unit phi t) as H. unfold unit_vec, vnorm2, vdot, polar_dir, vx, vy, vz in H. cbn [fst snd] in H. exact H.
+Qed.
+
+Lemma index_along_gen_pump_dependent no ne phi p t :
+  0 < no -> 0 < ne ->
+  (ne <= no /\ p = Extraordinary) \/ (no <= ne /\ p = Ordinary) ->
+  index_along_gen t phi no no ne (0, 0, 1) p = n_uniaxial no ne t.
+Proof.
+  intros Hno Hne H. rewrite index_along_gen_pump by assumption.
+  destruct (uniaxial_closed_form no ne _ _ t Hno Hne (polar_unit_components phi t)) as [H1 H2].
+  destruct H as [[Ho ->] | [Ho ->]]; [apply (H1 Ho) | apply (H2 Ho)].
+Qed.
+
+Lemma index_along_gen_pump_independent no ne phi p t :
+  0 < no -> 0 < ne ->
+  (ne <= no /\ p = Ordinary) \/ (no <= ne /\ p = Extraordinary) ->
+  index_along_gen t phi no no ne (0, 0, 1) p = no.
+Proof.
+  intros Hno Hne H. rewrite index_along_gen_pump by assumption.
+  destruct (uniaxial_closed_form no ne _ _ t Hno Hne (polar_unit_components phi t)) as [H1 H2].
+  destruct H as [[Ho ->] | [Ho ->]]; [apply (H1 Ho) | apply (H2 Ho)].
+Qed.
+
+Lemma walkoff_gen_ext f g theta : (forall t, f t = g t) -> walkoff_gen f theta = walkoff_gen g theta.
+Proof.
+  intros H. unfold walkoff_gen, derivative_at_gen. cbv zeta. rewrite !H. reflexivity.
+Qed.
